@@ -115,9 +115,11 @@ def run(pid, P, repo, wr, work, tier, seed):
         return res
     b = run_battery(wr, cfg, seed, cfg.get('iters_thorough', 400) if tier == 'thorough' else cfg.get('iters_quick', 40))
     res['battery'] = b
-    known = {k['obligation'] for k in common.known_findings()['known'] if k['property'] == pid}
+    known = [k for k in common.known_findings()['known'] if k['property'] == pid]
     for f in b['fails']:
-        if f['obligation'] in known:
+        # a known finding is identified by obligation AND the specific failing input/signature, so that a
+        # different failure of the same family is still reported
+        if any(k['obligation'] == f['obligation'] and k['match'] and k['match'] in f['what'] for k in known):
             res.setdefault('known', []).append(f)
             continue
         res['violations'].append({'obligation': f['obligation'], 'what': '%s %s' % (f['obligation'], f['what']),
